@@ -213,7 +213,25 @@ def _hypot(a, b):
     return _np.hypot(a, b)
 
 
+def _mixed_unary(name):
+    uf = getattr(_np, name)
+
+    def f(x, *a, **kw):
+        if isinstance(x, _np.ndarray) and x.dtype == object and not a and not kw:
+            out = _np.empty(x.shape, dtype=object)
+            for i, v in _np.ndenumerate(x):
+                out[i] = getattr(v, name)() if core.is_sym(v) else uf(v)
+            return out
+        return uf(x, *a, **kw)
+    return f
+
+
 _OVR = {
+    'sqrt': _mixed_unary('sqrt'),
+    'exp': _mixed_unary('exp'),
+    'log': _mixed_unary('log'),
+    'sin': _mixed_unary('sin'),
+    'cos': _mixed_unary('cos'),
     'isscalar': _isscalar,
     'isfinite': _isfinite,
     'isnan': _isnan,
